@@ -211,6 +211,103 @@ def drive_huge_strides(rec, quick):
     rec.data["ok"] = ok
 
 
+def drive_giant(rec):
+    """objects of more than 4 GiB (thorough tier only; about 9 GB of memory): byte counts and limb offsets beyond 32 bits.  N = 65536:
+    zero extension of 8200 rows by vec_znx_dft and svp_apply_dft, vec_znx_idft of 8201 rows, NTT120 vec_znx_dft of 2049 rows - sampled rows
+    against the same call on that row alone."""
+    import numpy as np
+    from lib import Buf, FFT64, NTT120, MASK_NONE
+    rng = random.Random(rec.seed + 4)
+    L = Lib.get()
+    n = 65536
+    ok = 0
+    mod = L.module(n, FFT64, MASK_NONE)
+    rows = 8201
+    sp = Sparse(2 * (rows + 2) * 8 * n)
+    if sp.addr is None:
+        rec.notes.append("giant objects: the mapping was refused by the system (not a verdict)")
+        rec.data["ok"] = 0
+        return
+    import ctypes
+    nb = 8 * n
+    D = ctypes.c_void_p(sp.addr)                                 # rows x N doubles
+    G = ctypes.c_void_p(sp.addr + (rows + 1) * nb)                # rows x N int64
+    a = Buf(nb, fill=0)
+    a.i64[:] = np.random.default_rng(rec.seed).integers(-(1 << 30), 1 << 30, n, dtype=np.int64)
+    pp = Buf(L.call("bytes_of_svp_ppol", mod), fill=0)
+    L.call("svp_prepare", mod, pp, a)
+    sample = sorted(set([0, 1, 2, 8190, 8191, 8192, 8193, rows - 1] + [rng.randrange(rows) for _ in range(6)]))
+
+    def row(base, i):
+        return sp.u8(base + i * nb, nb)
+    for label, call in (("vec_znx_dft", lambda: L.call("vec_znx_dft", mod, D, rows, a, 1, n)),
+                        ("svp_apply_dft", lambda: L.call("svp_apply_dft", mod, D, rows, pp, a, 1, n))):
+        sp.u8(0, rows * nb)[:] = 0x5A                           # stale content everywhere
+        if not rec.progress("%s N=%d res_size=%d a_size=1 (more than 4 GiB of zero extension)" % (label, n, rows)):
+            continue
+        call()
+        rec.case(("giant", label))
+        d1 = Buf(nb, fill=0x5A)
+        if label == "vec_znx_dft":
+            L.call("vec_znx_dft", mod, d1, 1, a, 1, n)
+        else:
+            L.call("svp_apply_dft", mod, d1, 1, pp, a, 1, n)
+        bad = [i for i in sample if not np.array_equal(row(0, i), d1.u8 if i == 0 else np.zeros(nb, dtype=np.uint8))]
+        if bad:
+            rec.violation("%s N=%d res_size=%d a_size=1: rows %s are not what the call on one row gives (row 0) / zero (the others)" % (label, n, rows, bad[:5]), {})
+        else:
+            ok += 1
+    # inverse DFT of 8201 rows: every row the same DFT row (so that one reference row is enough), result rows compared
+    if rec.progress("vec_znx_idft N=%d, %d rows (more than 4 GiB copied / transformed)" % (n, rows)):
+        d1 = Buf(nb, fill=0)
+        L.call("vec_znx_dft", mod, d1, 1, a, 1, n)
+        blk = sp.u8(0, rows * nb).reshape(rows, nb)
+        blk[:] = d1.u8
+        for i in sample:                                        # distinguishable rows at the sampled places
+            r = sp.u8(i * nb, nb).view(np.float64)
+            r *= float(1 + (i % 7))
+        tmp = Buf(L.call("vec_znx_idft_tmp_bytes", mod), fill=0x55)
+        L.call("vec_znx_idft", mod, G, rows, D, rows, tmp)
+        rec.case(("giant", "vec_znx_idft"))
+        bad = []
+        for i in sample:
+            g1, dd = Buf(nb, fill=0x66), Buf(nb)
+            dd.u8[:] = row(0, i)
+            L.call("vec_znx_idft", mod, g1, 1, dd, 1, tmp)
+            if not np.array_equal(row((rows + 1) * nb, i), g1.u8):
+                bad.append(i)
+        if bad:
+            rec.violation("vec_znx_idft N=%d %d rows: rows %s differ from the same call on that row alone" % (n, rows, bad[:5]), {})
+        else:
+            ok += 1
+    L.delete_module(mod)
+    sp.close()
+    # NTT120: 2049 rows of 32 N bytes
+    modn = L.module(n, NTT120, MASK_NONE)
+    rows = 2049
+    sp = Sparse((rows + 1) * 32 * n + (rows + 1) * nb)
+    if sp.addr is not None and rec.progress("vec_znx_dft on an NTT120 module N=%d, %d rows (more than 4 GiB written)" % (n, rows)):
+        src_off = (rows + 1) * 32 * n
+        src = sp.i64(src_off, rows * n)
+        src[:] = np.random.default_rng(rec.seed + 1).integers(-(1 << 62), 1 << 62, rows * n, dtype=np.int64)
+        L.call("vec_znx_dft", modn, ctypes.c_void_p(sp.addr), rows, ctypes.c_void_p(sp.addr + src_off), rows, n)
+        rec.case(("giant", "ntt120 vec_znx_dft"))
+        bad = []
+        for i in sorted(set([0, 1, 2047, 2048, rows - 1] + [rng.randrange(rows) for _ in range(5)])):
+            d1, a1 = Buf(32 * n, fill=0x33), Buf(nb)
+            a1.i64[:] = src[i * n:(i + 1) * n]
+            L.call("vec_znx_dft", modn, d1, 1, a1, 1, n)
+            if not np.array_equal(sp.u8(i * 32 * n, 32 * n), d1.u8):
+                bad.append(i)
+        if bad:
+            rec.violation("vec_znx_dft (NTT120) N=%d %d rows: rows %s differ from the same call on that row alone" % (n, rows, bad[:5]), {})
+        else:
+            ok += 1
+    L.delete_module(modn)
+    sp.close()
+    rec.data["ok"] = ok
+
+
 def drive_volume(rec, quick):
     """Large objects (2^22 coefficients and more: 32 MiB per operand), contiguous limbs, every operand at its own alignment class
     (0, 8, 16, 24 bytes past a 32-byte boundary).  The limb-wise entry points - coefficient and big-coefficient arithmetic, DFT, inverse DFT,
@@ -374,6 +471,10 @@ def run(chk, replay=None):
     dh = isolated(chk, "limb strides of gigabytes (sparse mapping)", drive_huge_strides, (quick,), timeout=900)
     chk.traces += dh["ok"] if dh else 0
     chk.cov["huge_stride_calls"] = dh["ok"] if dh else 0
+    if not quick:
+        dg = isolated(chk, "objects of more than 4 GiB", drive_giant, (), timeout=1800)
+        chk.traces += dg["ok"] if dg else 0
+        chk.cov["giant_object_calls"] = dg["ok"] if dg else 0
     chk.cov["exhaustive"] = True
     chk.cov["box"] = "sizes 0..3 x strides {N, N+delta, 2N} x aliasing {none, res=a, res=b, a=b, all} x 16 operations"
     chk.cov["rule"] = "one case = (direction, op, module kind, sizes, stride kinds, alias, N class); non-trivial when res_size > 0"
